@@ -31,6 +31,8 @@ PROPS = {
                 preds=["RequiredEnforced"]),
     "C12": dict(families=["env"], lens={"vals", "called", "as"}, rand=("C12", 6000, 150000),
                 preds=["EnvPrecedence", "CalledExact", "UntouchedKeepDefault"]),
+    "C17": dict(families=["complete"], lens={"comps", "exits", "ran", "writer"}, rand=("C17", 6000, 150000),
+                preds=["CandidatesExact", "OfferedAccepted"]),
     "C09": dict(families=["term", "conserve"], lens={"rest", "vals", "called"}, rand=("C09", 6000, 150000),
                 preds=["StopRoles", "PrefixAsUnordered", "NoStopAsUnordered", "Frozen (action property)"]),
 }
@@ -59,6 +61,7 @@ MANIFEST_TEXT = {
 MANIFEST_TEXT.update({
     "C10": _mt("DESIGN.md 5 C10", "ExactlyOneFn and DeepestCommand (the node reached by following exactly the tokens with ghost role cmd) checked by TLC over command trees with functions, own/inherited options, wrappers, require-order and help; the harness's instrumented CommandFns record which function ran how often, with which context, arguments and option view, and TLC validates that against the spec."),
     "C11": _mt("DESIGN.md 5 C11", "RequiredEnforced checked by TLC with required options at every level x custom messages x env binding x help by option, alias, abbreviation and help command; real Parse/Dispatch errors (errors.Is(ErrorParsing), custom message), help level and executed functions validated; which of several missing options is named is left open here (C20 fixes the rule)."),
+    "C17": _mt("DESIGN.md 5 C17", "GetoptComp.tla mirrors the completion branch (earlier words parsed with the ordinary parser steps in the configured mode, candidates generated at the level reached); TLC checks CandidatesExact (the operational candidate list equals the declarative definition written from the property statement) and OfferedAccepted on every COMP_LINE up to the bound x bash/zsh; the real completion output (bag of candidates, sortedness, exactly one exit with 124, no command function run, nothing on Writer) is validated for every such line and random ones."),
     "C12": _mt("DESIGN.md 5 C12", "EnvPrecedence with the definition-time environment step modelled before any command-line step, checked by TLC for every supported kind x env text class x CLI spelling; real values, Called and CalledAs validated."),
 })
 
@@ -73,6 +76,14 @@ PROPERTIES VariantDecreases Frozen FrameOneOption
 CHECK_DEADLOCK FALSE
 """
 
+COMP_MC_CFG = """SPECIFICATION Spec
+CONSTANTS
+  FamFile = "%(fam)s"
+  MaxLen = %(maxlen)d
+INVARIANT CompOK
+CHECK_DEADLOCK FALSE
+"""
+
 TRACE_CFG = """SPECIFICATION Spec
 CONSTANT TraceFile = "%(trace)s"
 POSTCONDITION AllConsumed
@@ -81,9 +92,15 @@ CHECK_DEADLOCK FALSE
 
 
 def model_check(work, fam, famfile, maxlen, relational=True):
-    rc, out, d = tlc(work, "mc-" + fam, "GetoptMC",
-                     MC_CFG % dict(fam=famfile, maxlen=maxlen, rel="TRUE" if relational else "FALSE"),
-                     workers=NCPU, heap="8g", timeout=7200)
+    with open(famfile) as f:
+        comp = json.loads(f.readline()).get("comp", False)
+    if comp:
+        rc, out, d = tlc(work, "mc-" + fam, "GetoptCompMC", COMP_MC_CFG % dict(fam=famfile, maxlen=maxlen),
+                         workers=NCPU, heap="8g", timeout=7200)
+    else:
+        rc, out, d = tlc(work, "mc-" + fam, "GetoptMC",
+                         MC_CFG % dict(fam=famfile, maxlen=maxlen, rel="TRUE" if relational else "FALSE"),
+                         workers=NCPU, heap="8g", timeout=7200)
     gen, dist = tlc_stats(out)
     if tlc_failed(rc, out):
         msgs = [m for m in tlc_messages(out) if m.get("k") == "SPECFAIL"]
@@ -324,6 +341,10 @@ def triage(violations):
                 print("   rest exp", e["restnil"], [tok(t) for t in e["rest"]], "| obs", r["restnil"], [tok(t) for t in r["rest"]])
             elif f in ("vals", "called", "as", "warn", "agree", "ran", "helpof", "derr"):
                 print("   %s exp" % f, json.dumps(e.get(f)), "| obs", json.dumps(r.get(f)))
+            elif f == "comps":
+                print("   comps exp", [tok(t) for t in e.get("comps", [])], "failed" if e.get("failed") else "", "reached" if e.get("reached") else "notreached", "node", e.get("node"), "| obs", [tok(t) for t in r["comps"]], "sorted", r.get("sorted"))
+            elif f == "writer":
+                print("   writer exp failed=%s | obs wother=%s err=%s" % (e.get("failed"), r.get("wother"), tok(r["err"]["msg"])[:100]))
             else:
                 print("   %s obs" % f, json.dumps(r.get(f)))
 
